@@ -6,6 +6,7 @@ CONSTANTS MaxConn = 2
           HdrWords = {0, 1}
           WithReject = FALSE
           MinOps = 0
+          Tmos = {0}
           Fails = {0}
 INVARIANTS Integrity ParkedAreQueued NoMissedMatch NoOrphan OnePipe DialerState RemAfterPost RejectedCarriesNothing
 PROPERTY CompleteOnce
